@@ -201,7 +201,17 @@ impl Model {
     }
 }
 
-const KNOWN: &str = ":lane-emptied-by-remove_remote";
+/// All laws that fail because `remove_remote` deleted a lane's `forward` entry (and with it the
+/// lane's reporter) share one signature: DESIGN §7-10.
+const KNOWN_SIG: &str = "reporter-dropped-by-remove_remote";
+
+fn sig(base: &str, known: bool) -> String {
+    if known {
+        KNOWN_SIG.to_string()
+    } else {
+        base.to_string()
+    }
+}
 
 struct Real {
     links: Links,
@@ -244,12 +254,12 @@ pub fn run_history(nl: usize, nr: usize, ops: &[LOp], every: bool) -> Outcome {
         if !m.registered[l] || m.failed[l] {
             return;
         }
-        let suffix = if m.entry_lost[l] { KNOWN } else { "" };
+        let known = m.entry_lost[l];
         let Some(reader) = real.lanes[l].as_ref() else { return };
         match reader.snapshot() {
             None => push(
                 fails,
-                format!("lane-reader-dead{}", suffix),
+                sig("lane-reader-dead", known),
                 format!("lane {} is registered and has not failed but its reader is no longer valid (snapshot() == None) {}", l, ctx()),
             ),
             Some(s) => {
@@ -258,7 +268,7 @@ pub fn run_history(nl: usize, nr: usize, ops: &[LOp], every: bool) -> Outcome {
                 if s.link_count != expect {
                     push(
                         fails,
-                        format!("lane-link-count{}", suffix),
+                        sig("lane-link-count", known),
                         format!("lane {} reports link_count {} but {} remotes are linked to it {}", l, s.link_count, expect, ctx()),
                     );
                 }
@@ -290,10 +300,9 @@ pub fn run_history(nl: usize, nr: usize, ops: &[LOp], every: bool) -> Outcome {
                 continue;
             }
             if real.seen_lane[l] != m.exp_lane[l] {
-                let suffix = if m.entry_lost[l] { KNOWN } else { "" };
                 push(
                     fails,
-                    format!("lane-event-count{}", suffix),
+                    sig("lane-event-count", m.entry_lost[l]),
                     format!("lane {}: snapshots add up to {} events, {} were counted {}", l, real.seen_lane[l], m.exp_lane[l], ctx()),
                 );
             }
@@ -302,7 +311,7 @@ pub fn run_history(nl: usize, nr: usize, ops: &[LOp], every: bool) -> Outcome {
             let known = m.lost_single > 0 && real.seen_agg + m.lost_single == m.exp_agg;
             push(
                 fails,
-                format!("agg-event-count{}", if known { KNOWN } else { "" }),
+                sig("agg-event-count", known),
                 format!("aggregate: snapshots add up to {} events, {} were counted {}", real.seen_agg, m.exp_agg, ctx()),
             );
         }
